@@ -203,38 +203,26 @@ def monitors(check):
                     if f is not None:
                         funcs.append((k.value, f))
     check.floor("monitor functions", len(funcs), 2)
-    RO_FIELD = {"average", "phydata", "stats", "isnan", "copy"}
-    RO_SELF = {"totnit", "nit", "calcrhs", "cputime"}
-    RO_DISC = {"all_L2average", "average"}
+    # MON-PURE by effect summaries (alias.py): a monitor may change its own parameter dictionary (the
+    # output it hands back), the scratch residual and the scratch of the discretisation (rewritten by
+    # every rhs() before it is read: DISC-SCRATCH); it must not change the state self.Qn nor the
+    # driver's bookkeeping, directly or through anything it calls
+    from ..common_rules import alias_analysis
+    an = alias_analysis(proj)
+    book = _bookkeeping(proj, tm) - {"residual"}
     for key, f in funcs:
         sn = f.params[0]
-        pn = f.params[1] if len(f.params) > 1 else "params"
         problems = []
-        for n in ast.walk(f.node):
-            if isinstance(n, (ast.Assign, ast.AugAssign)):
-                ts = n.targets if isinstance(n, ast.Assign) else [n.target]
-                for t in ts:
-                    for sub in ast.walk(t):
-                        if isinstance(sub, ast.Attribute) and isinstance(sub.value, ast.Name) and sub.value.id == sn:
-                            problems.append("stores self.%s (line %d)" % (sub.attr, n.lineno))
-                        if isinstance(sub, ast.Attribute) and isinstance(sub.value, ast.Attribute) and sub.value.attr == "Qn":
-                            problems.append("stores into self.Qn.%s (line %d)" % (sub.attr, n.lineno))
-            if isinstance(n, ast.Call) and isinstance(n.func, ast.Attribute):
-                v = n.func.value
-                if isinstance(v, ast.Name) and v.id == sn and n.func.attr not in RO_SELF:
-                    problems.append("calls self.%s() (line %d)" % (n.func.attr, n.lineno))
-                if isinstance(v, ast.Attribute) and v.attr == "Qn" and n.func.attr not in RO_FIELD:
-                    problems.append("calls self.Qn.%s() (line %d)" % (n.func.attr, n.lineno))
-                if isinstance(v, ast.Attribute) and v.attr == "modeldisc" and n.func.attr not in RO_DISC:
-                    problems.append("calls self.modeldisc.%s() (line %d)" % (n.func.attr, n.lineno))
-                # self.Qn passed to something that may modify it
-                for a in n.args:
-                    if isinstance(a, ast.Attribute) and a.attr == "Qn" and not (isinstance(v, ast.Name) and v.id == sn and n.func.attr == "calcrhs"):
-                        problems.append("passes self.Qn to %s (line %d)" % (unparse(n.func), n.lineno))
+        for o, (ln, text, via, kind) in sorted(an.summ[f.qualname].mut.items()):
+            if not o.startswith("S:"):
+                continue
+            root = o[2:].split(".")[0].split("[")[0]
+            if root == "Qn" or root in book:
+                problems.append("changes self.%s (`%s`, line %d%s)" % (o[2:], text[:50], ln, (", through %s" % via) if via else ""))
         if problems:
             check.violation("MON-PURE", f.qualname, "monitor '%s' %s: monitoring can perturb the trajectory" % (key, "; ".join(problems[:3])), f.loc(), key="impure")
         else:
-            check.ok("MON-PURE", f.qualname, "monitor '%s' writes only the scratch residual, its own output and reads self.Qn through read-only calls" % key, f.loc())
+            check.ok("MON-PURE", f.qualname, "monitor '%s' changes only its own output dictionary and scratch arrays; the state self.Qn and the driver's bookkeeping (%s) are not changed by it or by anything it calls" % (key, ", ".join(sorted(book))), f.loc())
         # MON-RECORD: the record is (cumulative iteration, current time, value computed from self.Qn),
         # appended exactly when the cumulative iteration is a multiple of the monitor's frequency.
         # Decided on expressions with locals expanded and self-methods with a single return inlined,
